@@ -7,6 +7,7 @@ import (
 	"net/http"
 	"strconv"
 	"strings"
+	"sync"
 	"time"
 
 	"github.com/lxzan/gws"
@@ -98,9 +99,168 @@ func execSessLimit(args []string) string {
 	return res
 }
 
+// demux forwards the callbacks of the connections of one upgrader to one recorder per connection.
+type demux struct {
+	mu sync.Mutex
+	m  map[*gws.Conn]*recorder
+}
+
+func (d *demux) of(c *gws.Conn) *recorder {
+	d.mu.Lock()
+	defer d.mu.Unlock()
+	if r, ok := d.m[c]; ok {
+		return r
+	}
+	return newRecorder() // not registered: dropped
+}
+func (d *demux) OnOpen(c *gws.Conn)                    { d.of(c).OnOpen(c) }
+func (d *demux) OnClose(c *gws.Conn, err error)        { d.of(c).OnClose(c, err) }
+func (d *demux) OnPing(c *gws.Conn, p []byte)          { d.of(c).OnPing(c, p) }
+func (d *demux) OnPong(c *gws.Conn, p []byte)          { d.of(c).OnPong(c, p) }
+func (d *demux) OnMessage(c *gws.Conn, m *gws.Message) { d.of(c).OnMessage(c, m) }
+
+const multiServerLimit = 4096
+
+// execSessMulti: `sess multi <poolSize> <step;step;…>`: three connections of ONE upgrader, so that they share its
+// pooled deflaters (poolSize 1: all three; 2: connections 0 and 2).  Connection 1 negotiates no context takeover,
+// 0 and 2 takeover in both directions.  Steps `<k>:s:<hex>` (server sends on connection k), `<k>:c:<hex>` (client k
+// sends), `<k>:bomb` (client k sends a message that inflates beyond the server's read limit: the server must fail
+// that connection with 1009 — and only that one).  Every connection has to behave as if it were alone.
+func execSessMulti(args []string) string {
+	pool, _ := strconv.Atoi(args[1])
+	d := &demux{m: map[*gws.Conn]*recorder{}}
+	pdS := gws.PermessageDeflate{Enabled: true, ServerContextTakeover: true, ClientContextTakeover: true,
+		ServerMaxWindowBits: 12, ClientMaxWindowBits: 12, Threshold: 1, PoolSize: pool}
+	up := gws.NewUpgrader(d, &gws.ServerOption{Logger: quietLogger{}, ReadMaxPayloadSize: multiServerLimit, PermessageDeflate: pdS})
+	const n = 3
+	var ss, cs [n]*gws.Conn
+	var sh, ch [n]*recorder
+	for k := 0; k < n; k++ {
+		tk := k != 1
+		sh[k], ch[k] = newRecorder(), newRecorder()
+		s, c, err := connectTo(up, &gws.ClientOption{PermessageDeflate: gws.PermessageDeflate{Enabled: true, ServerContextTakeover: tk, ClientContextTakeover: tk,
+			ServerMaxWindowBits: 12, ClientMaxWindowBits: 12, Threshold: 1}}, ch[k])
+		if err != nil {
+			return "handshake-failed"
+		}
+		d.mu.Lock()
+		d.m[s] = sh[k]
+		d.mu.Unlock()
+		ss[k], cs[k] = s, c
+		go s.ReadLoop()
+		go c.ReadLoop()
+	}
+	waitFor := func(h *recorder, n int) bool {
+		deadline := time.Now().Add(3 * time.Second)
+		for len(h.Events()) < n {
+			if time.Now().After(deadline) {
+				return false
+			}
+			time.Sleep(100 * time.Microsecond)
+		}
+		return true
+	}
+	var wantS, wantC [n]int
+	for k := 0; k < n; k++ {
+		wantS[k], wantC[k] = 1, 1
+		waitFor(sh[k], 1)
+		waitFor(ch[k], 1)
+	}
+	failed := ""
+	for _, t := range strings.Split(args[2], ";") {
+		f := strings.Split(t, ":")
+		k, _ := strconv.Atoi(f[0])
+		var err error
+		switch f[1] {
+		case "s":
+			err = ss[k].WriteMessage(gws.OpcodeBinary, unhx(f[2]))
+			wantC[k]++
+			if err == nil && !waitFor(ch[k], wantC[k]) {
+				failed = "not-delivered:" + t[:min(len(t), 40)]
+			}
+		case "c":
+			err = cs[k].WriteMessage(gws.OpcodeBinary, unhx(f[2]))
+			wantS[k]++
+			if err == nil && !waitFor(sh[k], wantS[k]) {
+				failed = "not-delivered:" + t[:min(len(t), 40)]
+			}
+		case "bomb":
+			err = cs[k].WriteMessage(gws.OpcodeBinary, bytes.Repeat([]byte("A"), 5*multiServerLimit))
+			wantS[k]++
+			if err == nil && !waitFor(sh[k], wantS[k]) {
+				failed = "bomb-not-answered"
+			}
+		default:
+			return "bad-op " + f[1]
+		}
+		if err != nil {
+			failed = "send-error:" + strings.Join(strings.Fields(err.Error()), "_")
+		}
+		if failed != "" {
+			break
+		}
+	}
+	evStr := func(h *recorder, tap []byte) string {
+		var out []string
+		for _, e := range h.Events() {
+			switch {
+			case e == "open":
+			case strings.HasPrefix(e, "msg:"):
+				b := unhx(e[strings.LastIndex(e, ":")+1:])
+				out = append(out, fmt.Sprintf("m%d:%d", len(b), fnv64(b)))
+			case strings.HasPrefix(e, "close:"):
+				// the Close frame is the last frame this end wrote (data frames may precede it)
+				reply := "nothing"
+				if fs, err := decodeFrames(tap); err != nil {
+					reply = "undecodable"
+				} else if len(fs) > 0 {
+					last := fs[len(fs)-1]
+					reply = closeReply(tap[len(tap)-last.wireLen:])
+				}
+				out = append(out, "closed:"+reply)
+			default:
+				out = append(out, e)
+			}
+		}
+		if len(out) == 0 {
+			return "-"
+		}
+		return strings.Join(out, ";")
+	}
+	var parts []string
+	for k := 0; k < n; k++ {
+		tap := ss[k].NetConn().(*memConn).Tap()
+		if i := bytes.Index(tap, []byte("\r\n\r\n")); i >= 0 {
+			tap = tap[i+4:] // skip the 101 response
+		}
+		part := fmt.Sprintf("%d:S[%s]C[%s]", k, evStr(sh[k], tap), evStr(ch[k], nil))
+		if !strings.Contains(part, "closed:") {
+			sCps, sDps := gws.VerifWindows(ss[k])
+			cCps, cDps := gws.VerifWindows(cs[k])
+			part += fmt.Sprintf("win=%s,%s,%s,%s", winStr(sCps), winStr(cDps), winStr(cCps), winStr(sDps))
+		}
+		parts = append(parts, part)
+	}
+	res := strings.Join(parts, " ")
+	if failed != "" {
+		res = failed + " " + res
+	}
+	for k := 0; k < n; k++ {
+		_ = ss[k].WriteClose(1000, nil)
+	}
+	for k := 0; k < n; k++ {
+		sh[k].WaitClosed(time.Second)
+		ch[k].WaitClosed(time.Second)
+	}
+	return res
+}
+
 func execSess(args []string) string {
 	if args[0] == "lim" {
 		return execSessLimit(args)
+	}
+	if args[0] == "multi" {
+		return execSessMulti(args)
 	}
 	en := args[0] == "1"
 	sT, cT := args[1] == "1", args[2] == "1"
@@ -300,6 +460,48 @@ func genSess(g *Gen) {
 			}
 		}
 		g.Emit("sess %s %s %s %d %d %d %d %s", b2s(en), b2s(sT), b2s(cT), sBits, cBits, sThr, cThr, strings.Join(ops, ";"))
+	}
+	// several connections of one upgrader (shared pooled deflaters): every connection behaves as if it were alone
+	nm := g.pick(40, 400)
+	for i := 0; i < nm; i++ {
+		var hist [][]byte
+		dead := map[int]bool{}
+		var steps []string
+		for j := 0; j < 3+r.Intn(8); j++ {
+			k := r.Intn(3)
+			if dead[k] {
+				continue
+			}
+			var p []byte
+			switch c := r.Intn(5); {
+			case c == 0 && len(hist) > 0: // content seen before, on whatever connection
+				q := hist[r.Intn(len(hist))]
+				p = append(append([]byte("again:"), q...), r.Text(r.Intn(20))...)
+			case c == 1:
+				p = r.Bytes(50 + r.Intn(400))
+			case c == 2:
+				p = nil
+			default:
+				p = r.Text(20 + r.Intn(1500))
+			}
+			if len(p) > multiServerLimit/2 {
+				p = p[:multiServerLimit/2]
+			}
+			switch c := r.Intn(9); {
+			case c < 4:
+				steps = append(steps, fmt.Sprintf("%d:s:%s", k, hx(p)))
+				hist = append(hist, p)
+			case c < 8:
+				steps = append(steps, fmt.Sprintf("%d:c:%s", k, hx(p)))
+				hist = append(hist, p)
+			default:
+				steps = append(steps, fmt.Sprintf("%d:bomb", k))
+				dead[k] = true
+			}
+		}
+		if len(steps) > 0 {
+			g.Emit("sess multi %d %s", []int{1, 2, 1, 4}[i%4], strings.Join(steps, ";"))
+		}
 	}
 	// payload exactly at the receiver's limit, incompressible, compression negotiated
 	for _, limit := range []int{200, 1000, 70000} {
